@@ -154,12 +154,14 @@ theorem varsLoop_end (O : Oracle) (G : List Tok) (hG : GapL G) (f : Nat) (acc : 
 structure SVarBlock.WF (O : Oracle) (b : SVarBlock) : Prop where
   items : ∀ p ∈ b.items, p.1.WF O
   last : ∀ d, b.last = some d → d.WF O
-  /-- every variable is declared once (a second declaration replaces the first in place) -/
-  names : ((b.items.map (·.1.name)) ++ (b.last.map (·.name)).toList).Nodup
 
-/-- the variables of a spelled block, as the parser builds them -/
-def SVarBlock.parsed (b : SVarBlock) : List Var :=
+/-- the declarations of a spelled block, as the parser meets them -/
+def SVarBlock.decls (b : SVarBlock) : List Var :=
   b.items.map (·.1.parsed) ++ (b.last.map SVarDecl.parsed).toList
+
+/-- the variables of a spelled block, as the parser builds them: a name (compared in normalised form) that is
+declared again replaces its first declaration in place -/
+def SVarBlock.parsed (b : SVarBlock) : List Var := b.decls.foldl varsAdd []
 
 theorem varsLoop_items (O : Oracle) (last : Option SVarDecl) (hl : ∀ d, last = some d → d.WF O) :
     ∀ (items : List (SVarDecl × Gap)), (∀ p ∈ items, p.1.WF O) → ∀ (G : List Tok), GapL G → ∀ (f : Nat) (acc : List Var),
@@ -186,41 +188,33 @@ theorem varsLoop_items (O : Oracle) (last : Option SVarDecl) (hl : ∀ d, last =
       (by simp at hf; omega)]
     simp
 
-theorem varsAdd_new (acc : List Var) (v : Var) (h : normalize v.1.val ∉ acc.map (fun e => normalize e.1.val)) :
-    varsAdd acc v = acc ++ [v] := by
-  have : acc.any (fun e => decide (normalize e.1.val = normalize v.1.val)) = false := by
-    simp only [List.any_eq_false, decide_eq_true_eq]
-    intro e he hh
-    exact h (by simp only [List.mem_map]; exact ⟨e, he, hh⟩)
-  simp [varsAdd, this]
+/-- `varsAdd` and its abstract counterpart commute with the projection (the key of the mapping is the normalised
+name) -/
+theorem varsAdd_proj (acc : List Var) (v : Var) :
+    (varsAdd acc v).map projVar = aVarsAdd (acc.map projVar) (projVar v) := by
+  have hany : (acc.map projVar).any (fun e => decide (e.1 = (projVar v).1)) =
+      acc.any (fun e => decide (normalize e.1.val = normalize v.1.val)) := by
+    simp only [List.any_map, projVar, Function.comp_def]
+    rfl
+  unfold varsAdd aVarsAdd
+  rw [hany]
+  split
+  · simp only [List.map_map]
+    apply List.map_congr_left
+    intro e _
+    simp only [Function.comp, projVar]
+    split <;> simp_all
+  · simp
 
-theorem varsFold_distinct (l acc : List Var) (hd : ((acc ++ l).map (fun e => normalize e.1.val)).Nodup) :
-    l.foldl varsAdd acc = acc ++ l := by
+theorem varsFold_proj (l acc : List Var) :
+    (l.foldl varsAdd acc).map projVar = (l.map projVar).foldl aVarsAdd (acc.map projVar) := by
   induction l generalizing acc with
-  | nil => simp
-  | cons v rest ih =>
-    have hnot : normalize v.1.val ∉ acc.map (fun e => normalize e.1.val) := by
-      intro hx
-      simp only [List.map_append, List.map_cons] at hd
-      exact (List.nodup_append.mp hd).2.2 _ hx _ (by simp) rfl
-    simp only [List.foldl_cons, varsAdd_new acc v hnot]
-    rw [ih (acc ++ [v]) (by simpa using hd)]
-    simp
+  | nil => rfl
+  | cons v rest ih => simp only [List.foldl_cons, List.map_cons, ih, varsAdd_proj]
 
 theorem SVarDecl.parsed_name (O : Oracle) (d : SVarDecl) (h : d.WF O) : normalize d.parsed.1.val = d.name := by
   simp only [SVarDecl.parsed, SVarDecl.nameTok, identTok]
   exact normalize_spell _ _ h.name
-
-theorem SVarBlock.parsed_names (O : Oracle) (b : SVarBlock) (h : b.WF O) :
-    b.parsed.map (fun e => normalize e.1.val) = (b.items.map (·.1.name)) ++ (b.last.map (·.name)).toList := by
-  simp only [SVarBlock.parsed, List.map_append, List.map_map]
-  congr 1
-  · apply List.map_congr_left
-    intro p hp
-    exact SVarDecl.parsed_name O p.1 (h.items p hp)
-  · cases hl : b.last with
-    | none => rfl
-    | some d => simp [SVarDecl.parsed_name O d (h.last d hl)]
 
 theorem renderVarItems_length (items : List (SVarDecl × Gap)) : items.length ≤ (renderVarItems items).length := by
   induction items with
@@ -243,9 +237,7 @@ theorem varsDecl_block (O : Oracle) (b : SVarBlock) (h : b.WF O) : varsDecl O b.
   rw [show varsLoop O (b.toks.length + 1) [] b.toks =
     varsLoop O (b.toks.length + 1) [] (Gap.toks b.lead ++ (renderVarItems b.items ++ renderLastVar b.last)) from rfl,
     varsLoop_items O b.last h.last b.items h.items _ (gapL_toks b.lead) _ [] hlen]
-  have := varsFold_distinct b.parsed [] (by
-    rw [List.nil_append, SVarBlock.parsed_names O b h]; exact h.names)
-  simpa [SVarBlock.parsed] using this
+  rfl
 
 theorem projVar_parsed (O : Oracle) (d : SVarDecl) (h : d.WF O) : projVar d.parsed = d.erase := by
   simp only [projVar, SVarDecl.erase, SVarDecl.parsed_name O d h]
@@ -253,8 +245,9 @@ theorem projVar_parsed (O : Oracle) (d : SVarDecl) (h : d.WF O) : projVar d.pars
   simp only [List.nil_append] at this
   simp [SVarDecl.parsed, this]
 
-theorem SVarBlock.proj_parsed (O : Oracle) (b : SVarBlock) (h : b.WF O) : b.parsed.map projVar = b.erase := by
-  simp only [SVarBlock.parsed, SVarBlock.erase, List.map_append, List.map_map]
+theorem SVarBlock.proj_decls (O : Oracle) (b : SVarBlock) (h : b.WF O) :
+    b.decls.map projVar = b.items.map (fun p => p.1.erase) ++ (b.last.map SVarDecl.erase).toList := by
+  simp only [SVarBlock.decls, List.map_append, List.map_map]
   congr 1
   · apply List.map_congr_left
     intro p hp
@@ -262,6 +255,9 @@ theorem SVarBlock.proj_parsed (O : Oracle) (b : SVarBlock) (h : b.WF O) : b.pars
   · cases hl : b.last with
     | none => rfl
     | some d => simp [projVar_parsed O d (h.last d hl)]
+
+theorem SVarBlock.proj_parsed (O : Oracle) (b : SVarBlock) (h : b.WF O) : b.parsed.map projVar = b.erase := by
+  simp only [SVarBlock.parsed, SVarBlock.erase, varsFold_proj, SVarBlock.proj_decls O b h, List.map_nil]
 
 /-! ## the block is balanced -/
 
